@@ -207,54 +207,64 @@ enum Associativity {
 ///
 /// Returns (binding power : u8, operator : SyntaxKind, associativity : Associativity)
 /// Look at canonical example: `+` has bp 10 and `*` has bp 11.
+/// Binding power of `**`, the tightest binary operator; also used for the operand of a
+/// unary operator.
+const POWER_BP: u8 = 14;
+/// Binding power of `=`; deliberately above all other operators (see `current_op`).
+const ASSIGN_BP: u8 = 15;
+
 #[rustfmt::skip]
 fn current_op(p: &Parser<'_>) -> (u8, SyntaxKind, Associativity) {
     use Associativity::*;
     // It seems that return value is never checked for `NOT_AN_OP`
     // r-a had @ for not an op. But we use triple dot
     const NOT_AN_OP: (u8, SyntaxKind, Associativity) = (0, T![...], Left);
+    // Binding powers follow the OpenQASM 3 operator precedence table (loosest to tightest):
+    //   ||  &&  |  ^  &  (== !=)  (< <= > >=)  (<< >>)  (+ -)  (* / %)  unary  **
+    // `**` is right associative. Unary operators parse their operand at the binding
+    // power of `**` (see `lhs`), so that `-a ** b` is `-(a ** b)`.
     match p.current() {
         T![|] if p.at(T![||])  => (3,  T![||],  Left),
         T![|] if p.at(T![|=])  => (1,  T![|=],  Right),
-        T![|]                  => (6,  T![|],   Left),
+        T![|]                  => (5,  T![|],   Left),
         T![>] if p.at(T![>>=]) => (1,  T![>>=], Right),
-        T![>] if p.at(T![>>])  => (9,  T![>>],  Left),
-        T![>] if p.at(T![>=])  => (5,  T![>=],  Left),
-        T![>]                  => (5,  T![>],   Left),
+        T![>] if p.at(T![>>])  => (10, T![>>],  Left),
+        T![>] if p.at(T![>=])  => (9,  T![>=],  Left),
+        T![>]                  => (9,  T![>],   Left),
         T![=] if p.at(T![=>])  => NOT_AN_OP,
-        T![=] if p.at(T![==])  => (5,  T![==],  Left),
+        T![=] if p.at(T![==])  => (8,  T![==],  Left),
         // r-a had 1 as the bp here. But this attempts to parse
         // `x + y = 3`; as `(x + y) = 3;` which is probably not what the user meant.
-        // Putting 12 as the bp instead of 1 parses this as
+        // Putting a bp above all other operators instead of 1 parses this as
         // `x + (y = 3)`. In OQ3, this is still illegal, but the user will get a more
         // informative error message. That an assignment statement is not allowed here.
-        // This may have unintended consequences and we will need to replace the 12 with 1.
-        T![=]                  => (12,  T![=],   Right),
-        T![<] if p.at(T![<=])  => (5,  T![<=],  Left),
+        // This may have unintended consequences and we will need to replace it with 1.
+        T![=]                  => (ASSIGN_BP,  T![=],   Right),
+        T![<] if p.at(T![<=])  => (9,  T![<=],  Left),
         T![<] if p.at(T![<<=]) => (1,  T![<<=], Right),
-        T![<] if p.at(T![<<])  => (9,  T![<<],  Left),
-        T![<]                  => (5,  T![<],   Left),
+        T![<] if p.at(T![<<])  => (10, T![<<],  Left),
+        T![<]                  => (9,  T![<],   Left),
         T![+] if p.at(T![+=])  => (1,  T![+=],  Right),
         // `++` is the concatenation op and should have some low value for bp.
         T![+] if p.at(T![++])  => (2,  T![++],  Left),
-        T![*] if p.at(T![**])  => (7,  T![**],  Left),
-        T![+]                  => (10, T![+],   Left),
+        T![*] if p.at(T![**])  => (POWER_BP, T![**], Right),
+        T![+]                  => (11, T![+],   Left),
         T![^] if p.at(T![^=])  => (1,  T![^=],  Right),
-        T![^]                  => (7,  T![^],   Left),
+        T![^]                  => (6,  T![^],   Left),
         T![%] if p.at(T![%=])  => (1,  T![%=],  Right),
-        T![%]                  => (11, T![%],   Left),
+        T![%]                  => (12, T![%],   Left),
         T![&] if p.at(T![&=])  => (1,  T![&=],  Right),
         T![&] if p.at(T![&&])  => (4,  T![&&],  Left),
-        T![&]                  => (8,  T![&],   Left),
+        T![&]                  => (7,  T![&],   Left),
         T![/] if p.at(T![/=])  => (1,  T![/=],  Right),
-        T![/]                  => (11, T![/],   Left),
+        T![/]                  => (12, T![/],   Left),
         T![*] if p.at(T![*=])  => (1,  T![*=],  Right),
-        T![*]                  => (11, T![*],   Left),
+        T![*]                  => (12, T![*],   Left),
         T![.] if p.at(T![..=]) => (2,  T![..=], Left),
         T![.] if p.at(T![..])  => (2,  T![..],  Left),
-        T![!] if p.at(T![!=])  => (5,  T![!=],  Left),
+        T![!] if p.at(T![!=])  => (8,  T![!=],  Left),
         T![-] if p.at(T![-=])  => (1,  T![-=],  Right),
-        T![-]                  => (10, T![-],   Left),
+        T![-]                  => (11, T![-],   Left),
         _                      => NOT_AN_OP
     }
 }
@@ -356,8 +366,9 @@ fn lhs(p: &mut Parser<'_>, r: Restrictions) -> Option<(CompletedMarker, BlockLik
             return Some((cm, block_like));
         }
     };
-    // parse the interior of the unary expression
-    expr_bp(p, None, r, 255);
+    // Parse the operand of the unary expression. Unary operators bind tighter than every
+    // binary operator except `**`.
+    expr_bp(p, None, r, POWER_BP);
     let cm = m.complete(p, kind);
     Some((cm, BlockLike::NotBlock))
 }
